@@ -38,6 +38,7 @@
 
 #include "common/circuit.hpp"
 #include "place_detailed/abacus_legalizer.hpp"
+#include "place_detailed/detailed_placement.hpp"
 #include "place_detailed/incr_net_model.hpp"
 #include "place_detailed/row_legalizer.hpp"
 #include "place_detailed/tetris_legalizer.hpp"
@@ -1187,12 +1188,113 @@ static IncInst genInc(vh::Rng &g, bool wild) {
   return t;
 }
 
+// ------------------------------------------------------------------ stages P / Q : DetailedPlacement driven directly
+// A legal placement (1-4 rows, 1-8 cells placed left to right without overlap) is handed to the DetailedPlacement
+// constructor, followed by up to 16 queries / moves: canSwap, canInsert, positionsOnSwap, positionOnInsert, swap, insert
+// (cell positions are printed after every accepted move; the session ends at the first std::runtime_error).
+// Stage P (in-domain): coordinates within +-2^22; the checked Lean model must answer the same and never fault.
+// Stage Q (beyond the domain): coordinates up to 2^31 (the placement stays legal, so the constructor's own sums
+//   `x + width <= row.maxX` cannot overflow); the model must predict exactly the sessions UBSan kills
+//   (`siteEnd - siteBegin`, `(boundaryBefore + boundaryAfter - width) / 2`, `(siteEnd - width + siteBegin) / 2`, ...).
+struct DetOp { int kind, a, b, c; };  // 0 canSwap a b, 1 canInsert a r p, 2 posSwap a b, 3 posInsert a r p, 4 swap a b, 5 insert a r p
+struct DetInst {
+  std::vector<Row> rows;
+  std::vector<int> w, x, y;
+  std::vector<CellOrientation> o;
+  std::vector<CellRowPolarity> pol;
+  std::vector<uint64_t> opSeeds;
+};
+static DetInst genDet(vh::Rng &g, long long R) {
+  DetInst t;
+  int nR = g.range(1, 4);
+  long long H = g.range(1, 1000);
+  long long y0 = g.chance(1, 2) ? -R : g.range(-R, R - nR * H - 1);
+  int n = 0;
+  for (int r = 0; r < nR; ++r) {
+    long long a = g.chance(1, 2) ? -R : g.range(-R, R - 1), b = g.chance(1, 2) ? R : g.range(a + 1, R);
+    if (b <= a) b = a + 1;
+    t.rows.emplace_back((int)a, (int)b, (int)(y0 + r * H), (int)(y0 + (r + 1) * H), r % 2 ? CellOrientation::FS : CellOrientation::N);
+    int k = g.range(0, 4);
+    long long cur = a;
+    for (int i = 0; i < k && n < 8; ++i) {
+      long long room = b - cur;
+      if (room <= 0) break;
+      long long wd = g.chance(1, 2) ? g.range(1, std::min<long long>(room, 64)) : g.range(1, std::max(1ll, room / (k - i)));
+      wd = std::min<long long>(wd, INT_MAX);
+      long long gap = g.chance(1, 2) ? 0 : g.range(0, room - wd);
+      if (g.chance(1, 6)) gap = room - wd;  // flush right
+      t.w.push_back((int)wd); t.x.push_back((int)(cur + gap)); t.y.push_back((int)(y0 + r * H));
+      t.o.push_back(r % 2 ? CellOrientation::FS : CellOrientation::N);
+      t.pol.push_back(g.chance(1, 4) ? CellRowPolarity::SAME : CellRowPolarity::ANY);
+      cur += gap + wd;
+      ++n;
+    }
+  }
+  if (n == 0) {
+    t.w.push_back(1); t.x.push_back(t.rows[0].minX); t.y.push_back(t.rows[0].minY); t.o.push_back(CellOrientation::N);
+    t.pol.push_back(CellRowPolarity::ANY);
+  }
+  int nOps = g.range(1, 16);
+  for (int i = 0; i < nOps; ++i) t.opSeeds.push_back(g.next());
+  return t;
+}
+// runs the session on the real code; writes the ops (for the Lean driver) and the answers
+static void detSession(const DetInst &t, std::ostream *ops, std::ostream *impl) {
+  int n = t.w.size();
+  if (ops) {
+    *ops << "dnew\n";
+    for (auto &r : t.rows) *ops << "drow " << r.minX << " " << r.maxX << " " << r.minY << " " << r.maxY << " " << (int)r.orientation << "\n";
+    for (int i = 0; i < n; ++i) *ops << "dcell " << t.w[i] << " " << t.x[i] << " " << t.y[i] << " " << (int)t.o[i] << " " << (int)t.pol[i] << "\n";
+    *ops << "dinit\n";
+  }
+  // the operations depend on the evolving linked lists (the predecessor is drawn from rowCells(row)), so the process that
+  // runs the real code also writes the ops
+  std::vector<int> idx(n);
+  for (int i = 0; i < n; ++i) idx[i] = i;
+  DetailedPlacement pl(t.rows, t.w, t.x, t.y, t.o, t.pol, idx);
+  if (impl) *impl << "dinit ok\n";
+  for (uint64_t sd : t.opSeeds) {
+    vh::Rng g(sd);
+    int kind = g.range(0, 5);
+    int a = g.range(0, n - 1), b = g.range(0, n - 1);
+    int r = g.range(0, (int)t.rows.size() - 1);
+    std::vector<int> rc = pl.rowCells(r);
+    int p = rc.empty() || g.chance(1, 3) ? -1 : rc[g.range(0, rc.size() - 1)];
+    static const char *names[] = {"dcanswap", "dcaninsert", "dposswap", "dposinsert", "dswap", "dinsert"};
+    bool two = kind == 0 || kind == 2 || kind == 4;
+    if (ops) {
+      *ops << names[kind] << " " << a;
+      if (two) *ops << " " << b; else *ops << " " << r << " " << p;
+      *ops << "\n";
+    }
+    bool thrown = false;
+    try {
+      if (kind == 0) { bool v = pl.canSwap(a, b); if (impl) *impl << "dcanswap " << (v ? 1 : 0) << "\n"; }
+      else if (kind == 1) { bool v = pl.canInsert(a, r, p); if (impl) *impl << "dcaninsert " << (v ? 1 : 0) << "\n"; }
+      else if (kind == 2) { auto q = pl.positionsOnSwap(a, b); if (impl) *impl << "dposswap " << q.first.x << " " << q.first.y << " " << q.second.x << " " << q.second.y << "\n"; }
+      else if (kind == 3) { auto q = pl.positionOnInsert(a, r, p); if (impl) *impl << "dposinsert " << q.x << " " << q.y << "\n"; }
+      else {
+        if (kind == 4) pl.swap(a, b); else pl.insert(a, r, p);
+        if (impl) {
+          *impl << names[kind] << " ok";
+          for (int i = 0; i < n; ++i) *impl << " " << pl.cellX(i) << " " << pl.cellRow(i);
+          *impl << "\n";
+        }
+      }
+    } catch (const std::runtime_error &) {
+      thrown = true;
+      if (impl) *impl << names[kind] << " throw:runtime_error\n";
+    }
+    if (thrown) break;  // the data structure is unspecified after an exception
+  }
+}
+
 // ------------------------------------------------------------------ worker
-struct Plan { long long nFlow, nDense, nM, nX, nS, nA, nT, nY, nI, nJ; int timeout; };
+struct Plan { long long nFlow, nDense, nM, nX, nS, nA, nT, nY, nI, nJ, nP, nQ; int timeout; };
 static Plan planFor(const vh::Args &a) {
-  if (a.thorough()) return {12000, 20000, 60000, 3000, 3000, 20000, 40000, 3000, 40000, 3000, 300};
-  if (a.search()) return {2500, 4000, 20000, 600, 1500, 20000, 10000, 600, 10000, 600, 120};
-  return {1500, 2500, 20000, 1200, 400, 6000, 10000, 1000, 10000, 1000, 120};
+  if (a.thorough()) return {12000, 20000, 60000, 3000, 3000, 20000, 40000, 3000, 40000, 3000, 40000, 3000, 300};
+  if (a.search()) return {2500, 4000, 20000, 600, 1500, 20000, 10000, 600, 10000, 600, 10000, 600, 120};
+  return {1500, 2500, 20000, 1200, 400, 6000, 10000, 1000, 10000, 1000, 10000, 1000, 120};
 }
 static const int MBATCH = 500;
 
@@ -1442,6 +1544,84 @@ static void worker(const vh::Args &a, int w, int J, const Plan &pl, const std::s
     r.counts = std::string("incrnet_wild_") + (fate == "ok" ? "no_fault" : "fault_" + fate);
     writeRec(f, r);
   }
+  // stage P: in-domain DetailedPlacement sessions.  The operations depend on the evolving data structure, so the child
+  // writes both streams (ops first, then the answers, separated by a marker line).
+  long long nPB = (pl.nP + MBATCH - 1) / MBATCH;
+  for (long long bt = w; bt < nPB && stageOn('P'); bt += J) {
+    Rec r; r.k = bt; r.stage = "P"; r.id = "p" + std::to_string(bt);
+    std::vector<DetInst> v;
+    for (long long i = bt * MBATCH; i < std::min<long long>(pl.nP, (bt + 1) * MBATCH); ++i) {
+      vh::Rng g = vh::Rng::forCase(a.seed ^ 0x5050, i);
+      v.push_back(genDet(g, M22));
+    }
+    std::string output, diag;
+    std::string fate = vh::isolated([&](std::ostream &os) {
+      std::ostringstream ops, impl;
+      for (size_t j = 0; j < v.size(); ++j) {
+        ops << "case p" << (bt * MBATCH + (long long)j) << "\n";
+        impl << "case p" << (bt * MBATCH + (long long)j) << "\n";
+        detSession(v[j], &ops, &impl);
+      }
+      os << ops.str() << "=====\n" << impl.str();
+    }, output, pl.timeout, &diag);
+    r.fate = fate;
+    size_t cut = output.find("=====\n");
+    if (fate == "ok" && cut != std::string::npos) { r.ops = output.substr(0, cut); r.impl = output.substr(cut + 6); }
+    r.counts = "detplace_domain_sessions=" + std::to_string(v.size());
+    if (fate != "ok") {
+      r.what = "[detplace_unit] DetailedPlacement faulted (" + fate + ") on an in-domain session at 2^22 magnitude: " + summarize(diag);
+      r.input = "detplace batch " + std::to_string(bt);
+    }
+    writeRec(f, r);
+  }
+  // stage Q: beyond-domain sessions, one child per case; a faulting session keeps the ops written up to and including the
+  // operation that died (the model must fault on them too)
+  for (long long k = w; k < pl.nQ && stageOn('Q'); k += J) {
+    vh::Rng g = vh::Rng::forCase(a.seed ^ 0x5151, k);
+    int mag = g.range(23, 31);
+    DetInst t = genDet(g, (1ll << mag) - 1);
+    Rec r; r.k = k; r.stage = "Q"; r.id = "q" + std::to_string(k);
+    std::string output, diag;
+    // the child appends "O <op line>" before executing each operation and "A <answer>" after it to a scratch file
+    // (vh::isolated only hands the output over when the child survives)
+    std::string scratch = path + ".q";
+    unlink(scratch.c_str());
+    std::string fate = vh::isolated([&](std::ostream &) {
+      struct Tag : std::streambuf {
+        int fd; const char *tag; std::string cur;
+        Tag(int f, const char *t) : fd(f), tag(t) {}
+        void put(char c) {
+          if (c == '\n') {
+            std::string ln = tag + cur + "\n";
+            if (write(fd, ln.data(), ln.size()) < 0) {}
+            cur.clear();
+          } else cur += c;
+        }
+        int_type overflow(int_type c) override { if (c != traits_type::eof()) put((char)c); return c; }
+        std::streamsize xsputn(const char *p, std::streamsize n) override { for (std::streamsize k = 0; k < n; ++k) put(p[k]); return n; }
+      };
+      int fdq = open(scratch.c_str(), O_WRONLY | O_CREAT | O_APPEND, 0644);
+      Tag tb(fdq, "O "), ta(fdq, "A ");
+      std::ostream ops(&tb), impl(&ta);
+      detSession(t, &ops, &impl);
+      close(fdq);
+    }, output, pl.timeout, &diag);
+    r.fate = fate;
+    std::string opsS, implS;
+    {
+      std::ifstream is(scratch);
+      std::string ln;
+      while (std::getline(is, ln)) {
+        if (ln.rfind("O ", 0) == 0) opsS += ln.substr(2) + "\n";
+        else if (ln.rfind("A ", 0) == 0) implS += ln.substr(2) + "\n";
+      }
+    }
+    unlink(scratch.c_str());
+    r.ops = "xcase q" + std::to_string(k) + "\n" + opsS + "endx\n";
+    r.impl = "xcase q" + std::to_string(k) + "\n" + (fate == "ok" ? implS : std::string("fault\n"));
+    r.counts = std::string("detplace_wild_") + (fate == "ok" ? "no_fault" : "fault_" + fate);
+    writeRec(f, r);
+  }
 }
 
 // ------------------------------------------------------------------ replay
@@ -1612,14 +1792,14 @@ int main(int argc, char **argv) {
     }
     if (r.fate == "skipped") continue;
     if (r.stage == "F" || r.stage == "C") out.evaluations++;
-    else if (r.stage == "M" || r.stage == "A" || r.stage == "T" || r.stage == "I") { /* counted through the distribution */ }
+    else if (r.stage == "M" || r.stage == "A" || r.stage == "T" || r.stage == "I" || r.stage == "P") { /* counted through the distribution */ }
     else out.evaluations++;
     if (r.nontrivialHash) out.nontrivial(r.nontrivialHash);
     if (!r.sample.empty() && (r.k % 97 == 0 || r.fate != "ok")) out.sample(r.sample);
     out.ops << r.ops;
     out.impl << r.impl;
     // a fault of stage X (beyond the domain) is not a property failure; it is compared with the model's prediction
-    if (r.stage != "X" && r.stage != "Y" && r.stage != "J" && r.fate != "ok") {
+    if (r.stage != "X" && r.stage != "Y" && r.stage != "J" && r.stage != "Q" && r.fate != "ok") {
       // keep every kind of failure visible below the 200-line cap of oracle.txt
       size_t a = r.what.find('['), b = r.what.find(']');
       std::string tag = (a != std::string::npos && b != std::string::npos && b > a) ? r.what.substr(a, b - a + 1) : "[untagged]";
@@ -1639,7 +1819,7 @@ int main(int argc, char **argv) {
     }
     out.notes.push_back(note);
   }
-  out.evaluations += out.dist["rowleg_domain_instances"] + out.dist["abacus_eval_instances"] + out.dist["tetris_domain_instances"] + out.dist["incrnet_domain_instances"];
+  out.evaluations += out.dist["rowleg_domain_instances"] + out.dist["abacus_eval_instances"] + out.dist["tetris_domain_instances"] + out.dist["incrnet_domain_instances"] + out.dist["detplace_domain_sessions"];
   if (workerDied) out.notes.push_back("a worker process died: results are incomplete");
   out.finish();
   return workerDied ? 4 : 0;
